@@ -295,6 +295,9 @@ class AbstractPWA(Alignment, Transform, Invertible):
             outputs = []
             points_outside_source_domain = []
             n_points = x.shape[0]
+            if n_points == 0:
+                # no points, no batches - there is nothing to split
+                return self._apply(x, **kwargs)
             exception_thrown = False
             for lo_ind in range(0, n_points, batch_size):
                 try:
